@@ -25,6 +25,14 @@ pub struct QueueReader<'a, T: Read + Seek> {
 
 impl<'a, T: Read + Seek> QueueReader<'a, T> {
     pub fn new(pc: &PointCloud, reader: &'a mut PagedReader<T>) -> Result<Self> {
+        // Without any record that occupies bits in the data packets it is impossible to know
+        // how many values a packet contains (filling the queues would never stop)
+        if pc.prototype.iter().all(|r| r.data_type.bit_size() == 0) {
+            Error::not_implemented(
+                "Point clouds without any record with a non-zero bit size are not supported",
+            )?
+        }
+
         reader
             .seek_physical(pc.file_offset)
             .read_err("Cannot seek to compressed vector header")?;
